@@ -209,6 +209,20 @@ def run(ctx):
     for g, bb, t in sites:
         okb = all(op_const(t["args"][bi - 1]) is False for bi in P.get("bools", []))
         ctx.ob("C05.1", "call|%s" % g.id, "the coding chooser is called only from the response module, with has_additional_headers = false", g.file == cte.file and okb, g.loc(bb))
+    # the chooser's answer is what goes onto the wire: on the abstract paths of raw_print, for either answer, the framing header written
+    # is the one of that coding (never overridden afterwards)
+    bad_applied = []
+    for stt, dlen, te in itertools.product((200, 404), (None, 0, 7, 100000), ("Identity", "Chunked")):
+        for pth in M.run(stt, dlen, False, te, False):
+            S = M.summary(pth)
+            if not S["ok"]:
+                continue
+            names = [n for i, n, v in S["headers"]]
+            has_te, has_cl = b"Transfer-Encoding" in names, b"Content-Length" in names
+            if (te == "Chunked") != has_te or (te == "Identity") != has_cl:
+                bad_applied.append((stt, dlen, te, [n.decode() for n in names if n in (b"Transfer-Encoding", b"Content-Length")]))
+    ctx.ob("C05.1", "%s|answer-applied" % raw_print.id, "the coding the chooser answered is the one applied: `Transfer-Encoding: chunked` is written iff it answered chunked, `Content-Length` iff it answered identity",
+           not bad_applied, "%s:%d" % (raw_print.file, raw_print.line), None if not bad_applied else str(bad_applied[:3]))
     # what raw_print passes: its own status, the request's headers and version, its declared length and threshold
     rf = M.f
     for bb, t in rf.calls():
@@ -302,6 +316,17 @@ def run(ctx):
 
     import rules_C19
     rules_C19.conv_fields(ctx, facts, "C05.3")
+    # the framing headers on the wire are the library's own: no Content-Length / Transfer-Encoding supplied by the application is ever stored
+    # in the header list (decided by C19's table of add_header; taken over here because a stored one would contradict the coding chosen)
+    import engine
+    c2 = engine.Ctx("C05", "quick", facts, 0)
+    rules_C19.run(c2)
+    n5 = 0
+    for o in c2.obs:
+        if o.rule == "C19.1" and (o.key.endswith("|table") or o.key.endswith("|atoms")):
+            n5 += 1
+            ctx.obs.append(engine.Ob("C05.5|" + o.key.split("|", 1)[1], "C05.5", o.text, o.ok, o.where, o.detail, o.nontrivial))
+    ctx.floor("C05.5 obligations on application-supplied framing headers", n5, 2)
 
     # ---- C05.4 TE preference
     # bound by role: the function (closure or helper) on the chooser's path that sorts the parsed preferences, and the comparator it passes to sort_by
